@@ -1,6 +1,15 @@
 """tools/round_prompts.py <round> : write /var/tmp/prompt<round>-Cxx.txt for all 20 properties (hint lists every earlier seeded change of the property)."""
 import glob, json, os, subprocess, sys
 rnd = sys.argv[1]
+FOCUS = {
+    "8": ("This time PREFER a bug of one of these kinds: (i) behaviour that depends on WHO wrote the file or on optional parts of the format being "
+          "absent or present (files of other writers, footers without created_by / key-value metadata / statistics / pandas metadata, mixed sets "
+          "of files, metadata written by an older version); (ii) pandas-3 specific dtypes and values (the new str dtype, nullable Float32/Float64, "
+          "non-nanosecond datetimes and timedeltas, ArrowDtype-free object columns holding mixed None/NaN); (iii) arithmetic BOUNDARIES (values at "
+          "the limits of int32/int64/uint64, sizes and counts around 2**15, 2**16, 2**31, offsets beyond 2 GiB handled as numbers not files, "
+          "rounding when units are rescaled); (iv) the SECOND use of something (second append, second slice of a slice, re-opened dataset, a "
+          "handle used after an operation on it failed). "),
+}
 PREFER = ("This time PREFER a bug of one of these kinds: (i) an INTERPLAY between two different API features or two different handles on the same "
           "dataset (derived handles: slices, pickles, copies, handles opened from file-like objects or from a list of files; a dataset built by one "
           "operation and then changed by another: merge then append, overwrite then remove, append after key-value update ...); (ii) a RARELY USED "
@@ -17,7 +26,10 @@ for i in range(1, 21):
     for mp in sorted(glob.glob("/verif/seeded/%s-*/meta.json" % pid)):
         m = json.load(open(mp))
         earlier.append("%s [%s]" % (m.get("breaks", "")[:110], m.get("where", "")))
-    hint = ("NOTE: earlier exercises already produced the changes listed below for this property; do NOT repeat them or close variants. " + PREFER +
+    prefer = PREFER
+    if rnd in FOCUS:
+        prefer = FOCUS[rnd] + PREFER[PREFER.index("At the END"):]
+    hint = ("NOTE: earlier exercises already produced the changes listed below for this property; do NOT repeat them or close variants. " + prefer +
             " Earlier changes: " + " | ".join(earlier))
     if pid in ("C11", "C12"):
         hint = ("NOTE for this property: it concerns the COMPILED codecs, so the change has to be made in the generated C (fastparquet/cencoding.c or speedups.c; both are "
